@@ -9,10 +9,17 @@ PROP = "C13"
 IMPORTS = ["Base.Str", "Model.Xxh64", "Model.Filter", "Model.Partition", "Proofs.Partition",
            "Proofs.PartitionWhole"]
 PRELUDE = """
-Definition pre_of (ri : run_ignored) (skips : list str) : str -> bool -> option mismatch :=
+Definition any_infix (l : list str) (nm : str) : bool := existsb (fun s => is_infix s nm) l.
+(* ignored stage; then the name stage (--skip overrides; positional substring patterns, if any, must
+   match) before the expression stage (some -E test(~s) must match, if any is given) *)
+Definition pre_of (ri : run_ignored) (skips pats exprs : list str) : str -> bool -> option mismatch :=
   fun nm ign => match filter_ignored ri ign with
                 | Some r => Some r
-                | None => if existsb (fun s => is_infix s nm) skips then Some MString else None
+                | None =>
+                    if any_infix skips nm then Some MString
+                    else if match pats with [] => false | _ => negb (any_infix pats nm) end then Some MString
+                    else if match exprs with [] => false | _ => negb (any_infix exprs nm) end then Some MExpression
+                    else None
                 end.
 Definition obs (l : list tcase) : list (list N * (N * N))%type :=
   map (fun e : tcase => (fst e, ((if fst (snd e) then 1 else 0), fmatch_code (snd (snd e))))) l.
@@ -105,14 +112,19 @@ def gen_scenario(r, allow_dups=True):
     r.shuffle(non_ignored)
     r.shuffle(ignored)
     skips = [r.choice(["a", "b", "_", "ab", "é"]) for _ in range(r.choice([0, 0, 1, 2]))]
+    # positional name patterns and -E filtersets (test(~s)), alone and together with --skip: the
+    # partition applies after all of them, whichever of them accepted the test
+    pats = [r.choice(["a", "b", "_", "0", "B", "é"]) for _ in range(r.choice([0, 0, 0, 1, 2]))]
+    exprs = [r.choice(["a", "b", "_", "0", "B", "é"]) for _ in range(r.choice([0, 0, 0, 1, 2]))]
     return dict(names=names, ign=ign, conv=conv, non_ignored=non_ignored, ignored=ignored,
-                ri=r.choice(["default", "default", "only", "all"]), skips=skips,
+                ri=r.choice(["default", "default", "only", "all"]), skips=skips, pats=pats, exprs=exprs,
                 kind=r.choice(["count", "hash"]), n=r.choice([1, 2, 3, 5, 7]))
 
 
 def list_case(sc, m):
     return dict(op="list", kind=sc["kind"] if m else None, m=m or 0, n=sc["n"], ri=sc["ri"],
-                skips=sc["skips"], non_ignored=sc["non_ignored"], ignored=sc["ignored"])
+                skips=sc["skips"], pats=sc.get("pats", []), exprs=sc.get("exprs", []),
+                non_ignored=sc["non_ignored"], ignored=sc["ignored"])
 
 
 def coq_pb(kind, m, n):
@@ -126,7 +138,9 @@ RI = {"default": "RIDefault", "only": "RIOnly", "all": "RIAll"}
 
 def coq_list_case(c):
     return (f"enc (obs (process_output {coq_pb(c['kind'], c['m'], c['n'])} "
-            f"(pre_of {RI[c['ri']]} {coq_list([coq_str(s) for s in c['skips']])}) "
+            f"(pre_of {RI[c['ri']]} {coq_list([coq_str(s) for s in c['skips']])} "
+            f"{coq_list([coq_str(s) for s in c.get('pats', [])])} "
+            f"{coq_list([coq_str(s) for s in c.get('exprs', [])])}) "
             f"{coq_list([coq_str(s) for s in c['non_ignored']])} "
             f"{coq_list([coq_str(s) for s in c['ignored']])}))")
 
@@ -258,7 +272,14 @@ def run(tier, seed):
                  # the ignored listing is not a sub-list of the plain listing: b_i is only named by --list --ignored
                  dict(names=["a", "b_i", "c", "d_i", "e", "f_i", "g"], ign=["b_i", "d_i", "f_i"], conv="mixed",
                       non_ignored=["a", "c", "d_i", "e", "f_i", "g"], ignored=["b_i", "d_i", "f_i"], ri="default",
-                      skips=[], kind="count", n=2)] + corpus()
+                      skips=[], kind="count", n=2),
+                 # a test accepted by a name filter AND by a filterset is still partitioned
+                 dict(names=["net_a", "net_b", "net_c", "io_a", "net_d", "io_b"], ign=[], conv="libtest",
+                      non_ignored=["net_a", "net_b", "net_c", "io_a", "net_d", "io_b"], ignored=[], ri="default",
+                      skips=[], pats=["_"], exprs=["net"], kind="hash", n=2),
+                 dict(names=["net_a", "net_b", "net_c", "io_a", "net_d", "io_b"], ign=["net_b"], conv="libtest",
+                      non_ignored=["net_a", "net_b", "net_c", "io_a", "net_d", "io_b"], ignored=["net_b"], ri="all",
+                      skips=["io"], pats=[], exprs=["_"], kind="count", n=3)] + corpus()
     while len(scenarios) < (700 if thorough else 90):
         scenarios.append(gen_scenario(r))
     cases, index = [], []
@@ -287,8 +308,10 @@ def run(tier, seed):
         if si not in per_sc or len(per_sc[si]) != sc["n"] + 1:
             continue
         chk.count(f"scenario_{sc['kind']}_{sc['conv']}_ri={sc['ri']}")
+        chk.count("filters=" + ("+".join(k for k in ("skips", "pats", "exprs") if sc.get(k)) or "none"))
         if len(sc["names"]) >= 2 and sc["n"] >= 2:
-            distinct.add(json.dumps([sc["names"], sc["ign"], sc["kind"], sc["n"], sc["ri"], sc["skips"]]))
+            distinct.add(json.dumps([sc["names"], sc["ign"], sc["kind"], sc["n"], sc["ri"], sc["skips"],
+                                     sc.get("pats", []), sc.get("exprs", [])]))
         if sc["conv"] == "dups":
             continue
         why = oracle_scenario(sc, per_sc[si])
@@ -329,7 +352,9 @@ def run(tier, seed):
         exprs = []
         for si, _ in size_checks:
             sc = scenarios[si]
-            exprs.append(f"(if f21_class (pre_of {RI[sc['ri']]} {coq_list([coq_str(x) for x in sc['skips']])}) "
+            exprs.append(f"(if f21_class (pre_of {RI[sc['ri']]} {coq_list([coq_str(x) for x in sc['skips']])} "
+                         f"{coq_list([coq_str(x) for x in sc.get('pats', [])])} "
+                         f"{coq_list([coq_str(x) for x in sc.get('exprs', [])])}) "
                          f"{coq_list([coq_str(x) for x in sc['non_ignored']])} "
                          f"{coq_list([coq_str(x) for x in sc['ignored']])} {sc['n']} then 1 else 0)")
         model = vlib.coq_eval("c13k", IMPORTS, exprs, PRELUDE)
